@@ -1,10 +1,17 @@
 ------------------------------ MODULE Gen_IdlA ------------------------------
+(* Behaviours for the IDL driver: listener, and per step the packet as sent (units, fault, wire bytes with the dummy
+   bytes marked) and what the reference receiver delivers. *)
 EXTENDS IdlA, Json
 VARIABLE hist
 gvars == <<vars, hist>>
 gview == vars
+ASSUME AllStuffOK
 GInit == Init /\ hist = <<>>
-GNext == Next /\ hist' = Append(hist, [act |-> lastAct', out |-> out'])
+Step(a, o) == IF a.a = "Send"
+              THEN LET pl == Payload(a.it.pay, a.it.fmt, a.it.spalen)
+                   IN [act |-> a, wire |-> pl.wire, out |-> [i \in 1..Len(o) |-> [lost |-> o[i].lost, dep |-> o[i].dep, bytes |-> Delivered(a.it)]]]
+              ELSE [act |-> a, wire |-> <<>>, out |-> o]
+GNext == Next /\ hist' = Append(hist, Step(lastAct', out'))
 GSpec == GInit /\ [][GNext]_gvars
-Dump == /\ (npk = MaxPk => PrintT(<<"TR", ToJson(hist)>>)) /\ npk < MaxPk
+Dump == (npk = ModeLen(mode)) => PrintT(<<"TR", ToJson([lst |-> lst, mode |-> mode, steps |-> hist])>>)
 =============================================================================
